@@ -702,6 +702,84 @@ fn run_broadcast(n: usize, lanes: usize, out: &mut JobOut) {
     }
 }
 
+/// (1) broadcast (stride-0) *query* views: meshgrid-style xs / ys where one repeats along an axis the
+/// other varies along, against owned copies; (2) data lanes and output buffer that are non-contiguous
+/// in exactly the same way (both every 2nd / 3rd element of larger arrays), against the plain run.
+fn run_broadcast_queries_and_equal_strides(out: &mut JobOut) {
+    use ndarray::{s, Array1 as A1, Array2 as A2};
+    let x: A1<f64> = A1::from(vec![0.0, 0.1, 0.5, 1.7, 2.0]);
+    let y: A1<f64> = A1::from(vec![-1.0, 0.3, 0.9, 2.5]);
+    let z = A2::from_shape_fn((5, 4), |(i, j)| ((i * 4 + j) as f64 * 0.37).sin() * 3.0);
+    let ip2 = Interp2DBuilder::new(z.view()).x(x.view()).y(y.view()).build().expect("valid");
+    let (gx, gy) = (A1::from(vec![0.05, 0.3, 1.0, 1.9]), A1::from(vec![-0.5, 0.5, 2.0]));
+    // meshgrid through broadcasting: xs varies along axis 0, ys along axis 1 (and the transposed form)
+    for form in 0..2 {
+        let (cx, cy) = if form == 0 { (gx.view().insert_axis(Axis(1)), gy.view().insert_axis(Axis(0))) } else { (gx.view().insert_axis(Axis(0)), gy.view().insert_axis(Axis(1))) };
+        let shape = if form == 0 { (4, 3) } else { (3, 4) };
+        let (bx, by) = (cx.broadcast(shape).expect("broadcast"), cy.broadcast(shape).expect("broadcast"));
+        let (ox, oy) = (bx.to_owned(), by.to_owned());
+        let a = catch(|| ip2.interp_array(&bx, &by));
+        let b = ip2.interp_array(&ox, &oy).expect("in range");
+        out.evals += 1;
+        out.nontrivial += 1;
+        out.transitions += 2;
+        let same = matches!(&a, Ok(Ok(v)) if obs_arr(&v.clone().into_dyn()) == obs_arr(&b.clone().into_dyn()));
+        let mut buf = A2::from_elem(shape, f64::NAN);
+        let c = catch(|| ip2.interp_array_into(&bx, &by, buf.view_mut()));
+        let same_into = matches!(c, Ok(Ok(()))) && obs_arr(&buf.clone().into_dyn()) == obs_arr(&b.clone().into_dyn());
+        out.outcome(if same && same_into { "broadcast-query:bit-identical" } else { "broadcast-query:differs" });
+        if !same || !same_into {
+            out.violate(format!("broadcast-query:2d:form{form}"), format!("Interp2D with xs / ys that are stride-0 broadcast views (meshgrid, shape {shape:?}) differs from the same call on owned copies (interp_array same: {same}, interp_array_into same: {same_into})"), Json::Null);
+        }
+        // 1-D interpolator with a broadcast query
+        let d1 = A2::from_shape_fn((5, 2), |(i, j)| ((i * 2 + j) as f64 * 0.37).sin());
+        let ip1 = Interp1DBuilder::new(d1.view()).x(x.view()).build().expect("valid");
+        let a = catch(|| ip1.interp_array(&bx));
+        let b = ip1.interp_array(&ox).expect("in range");
+        out.evals += 1;
+        out.nontrivial += 1;
+        if !matches!(&a, Ok(Ok(v)) if obs_arr(&v.clone().into_dyn()) == obs_arr(&b.clone().into_dyn())) {
+            out.violate(format!("broadcast-query:1d:form{form}"), "Interp1D with a stride-0 broadcast query view differs from the same call on an owned copy".to_string(), Json::Null);
+        }
+    }
+    // (2) data lanes and buffer strided identically
+    for k in [2usize, 3] {
+        for (n, lanes) in [(4usize, 3usize), (5, 4)] {
+            let xs: A1<f64> = (0..n).map(|i| [0.0, 0.1, 0.5, 1.7, 2.0][i]).collect();
+            let big = A2::from_shape_fn((n, lanes * k), |(i, j)| ((i * 31 + j * 7) as f64 * 0.37).sin() * 3.0 + j as f64);
+            let dview = big.slice(s![.., ..;k]);
+            let downed = dview.to_owned();
+            macro_rules! both {
+                ($name:expr, $strat:expr) => {{
+                    let ipv = Interp1DBuilder::new(dview.clone()).x(xs.view()).strategy($strat).build().expect("valid");
+                    let ipo = Interp1DBuilder::new(downed.view()).x(xs.view()).strategy($strat).build().expect("valid");
+                    for q in [0.05, 0.5, 1.2, xs[n - 1]] {
+                        let want = ipo.interp(q).expect("in range");
+                        let mut bigbuf = A1::from_elem(lanes * k, POISON);
+                        let r = {
+                            let w = bigbuf.slice_mut(s![..;k]);
+                            catch(|| ipv.interp_into(q, w))
+                        };
+                        out.evals += 1;
+                        out.nontrivial += 1;
+                        out.transitions += 1;
+                        let got: Vec<u64> = bigbuf.slice(s![..;k]).iter().map(|v| v.to_bits()).collect();
+                        let between_ok = bigbuf.iter().enumerate().all(|(j, v)| j % k == 0 || v.to_bits() == POISON.to_bits());
+                        let ok = matches!(r, Ok(Ok(()))) && got == want.iter().map(|v| v.to_bits()).collect::<Vec<_>>() && between_ok;
+                        out.outcome(if ok { "equal-strides:same" } else { "equal-strides:differs" });
+                        if !ok {
+                            out.violate(format!("equal-strides:{}:k{k}:n{n}", $name), format!("{}: data lanes and output buffer both every {k}-th element of larger arrays, q = {q}: result {r:?}, buffer elements as expected: {}, memory between the buffer elements untouched: {between_ok}", $name, got == want.iter().map(|v| v.to_bits()).collect::<Vec<_>>()), Json::Null);
+                        }
+                    }
+                }};
+            }
+            both!("Linear", Linear::new());
+            both!("Linear+extrapolate", Linear::new().extrapolate(true));
+            both!("CubicSpline", CubicSpline::new());
+        }
+    }
+}
+
 fn body(ctx: &Ctx) -> (Summary, Meta) {
     // the full layout alphabet costs well under a second: both tiers use it; the thorough tier adds a
     // second family of data shapes
@@ -761,6 +839,11 @@ fn body(ctx: &Ctx) -> (Summary, Meta) {
         run_broadcast(j.0, j.1, &mut out);
         out
     }));
+    sum.merge(run_jobs(ctx, "broadcast-queries-and-equal-strides", &[()], |_| "broadcast-queries+equal-strides".to_string(), |_| {
+        let mut out = JobOut::default();
+        run_broadcast_queries_and_equal_strides(&mut out);
+        out
+    }));
     let alias_jobs: Vec<(usize, usize)> = (0..3).flat_map(|k| (2..=6).map(move |m| (k, m))).collect();
     sum.merge(run_jobs(ctx, "aliasing", &alias_jobs, |j| format!("alias:kind{}:m{}", j.0, j.1), |j| {
         let mut out = JobOut::default();
@@ -768,7 +851,7 @@ fn body(ctx: &Ctx) -> (Summary, Meta) {
         out
     }));
     let meta = Meta {
-        rule: "for every (strategy, data rank 1..4, query rank 0..3 / dynamic, static-or-dynamic instantiation) the four call forms {interp, interp_into, interp_array, interp_array_into} are run once with all arguments as owned C-order arrays (reference) and then with each argument (data, x, y, query xs, query ys, output buffer, boundary array) independently in every layout of the alphabet {F order, every 2nd (3rd) element of a larger poisoned array, reversed along an axis (negative stride), permuted axes storage; buffers also as reversed windows}, and with the full product over a 3-layout core {C, F, reversed+strided} of (data, x, query, buffer). For Linear and Bilinear every job is repeated with a query holding two different out-of-range values: the error (which names the first offending value in logical order) and the partially filled buffer must not depend on the layouts either. Oracle: bit-identical to the reference; correctly shaped buffers accepted; memory outside strided buffers untouched. Non-trivial = at least one argument not in C order. Broadcast phase: data that is a stride-0 broadcast view along the lane axis (Linear, CubicSpline with whole-data-set and with per-lane boundary conditions, Bilinear) against an owned copy. Aliasing phase: Interp2D whose x and y axes are views into one allocation starting at the same element (column/row of one table; forward/backward slice of one vector; the same view twice), 2..6 points, every query pair over the knots and interior points (diagonal included), batch queries that are the axes themselves or views of one array, and Interp1D whose axis is a column of its data - each compared bit for bit with the same call on owned copies.".into(),
+        rule: "for every (strategy, data rank 1..4, query rank 0..3 / dynamic, static-or-dynamic instantiation) the four call forms {interp, interp_into, interp_array, interp_array_into} are run once with all arguments as owned C-order arrays (reference) and then with each argument (data, x, y, query xs, query ys, output buffer, boundary array) independently in every layout of the alphabet {F order, every 2nd (3rd) element of a larger poisoned array, reversed along an axis (negative stride), permuted axes storage; buffers also as reversed windows}, and with the full product over a 3-layout core {C, F, reversed+strided} of (data, x, query, buffer). For Linear and Bilinear every job is repeated with a query holding two different out-of-range values: the error (which names the first offending value in logical order) and the partially filled buffer must not depend on the layouts either. Oracle: bit-identical to the reference; correctly shaped buffers accepted; memory outside strided buffers untouched. Non-trivial = at least one argument not in C order. Broadcast queries: xs / ys that are stride-0 broadcast views (meshgrid in both orientations) against owned copies; data lanes and output buffer strided identically (every 2nd / 3rd element) for the single-point *_into call. Broadcast phase: data that is a stride-0 broadcast view along the lane axis (Linear, CubicSpline with whole-data-set and with per-lane boundary conditions, Bilinear) against an owned copy. Aliasing phase: Interp2D whose x and y axes are views into one allocation starting at the same element (column/row of one table; forward/backward slice of one vector; the same view twice), 2..6 points, every query pair over the knots and interior points (diagonal included), batch queries that are the axes themselves or views of one array, and Interp1D whose axis is a column of its data - each compared bit for bit with the same call on owned copies.".into(),
         bounds: format!("{njobs} instantiation jobs; tier {}", ctx.tier.name()),
         assumptions: vec!["all layouts are realised as owned arrays / mutable views with unusual strides; ownership kinds (view, shared) are covered by C19".into()],
         extra: vec![],
